@@ -413,10 +413,10 @@ example (junk : List (DScratch Rat)) (hj : DScrsOK ([mgL0, mgL1r].map (·.part))
     _ _ _ (dscrsOK_fresh [mgL0, mgL1r]) hj (dvecOK_split _ _ (by decide))
 
 /-- a coarse solver that returns vectors of the size of its right-hand side (Cramer on 2×2 systems) -/
-def mgDirect' (A : CRS Rat) (f : Vec Rat) : Vec Rat := if f.size = 2 then mgDirect A f else f
+def mgDirectS (A : CRS Rat) (f : Vec Rat) : Vec Rat := if f.size = 2 then mgDirect A f else f
 
-theorem mgDirect'_size (A : CRS Rat) (f : Vec Rat) : (mgDirect' A f).size = f.size := by
-  unfold mgDirect'
+theorem mgDirectS_size (A : CRS Rat) (f : Vec Rat) : (mgDirectS A f).size = f.size := by
+  unfold mgDirectS
   split
   · next h => rw [h]; rfl
   · rfl
@@ -426,7 +426,7 @@ given pairwise-aggregation operators distributed so that rank 0 is empty on the 
 (Galerkin product through `mpi::product`, direct coarse solver) that is `DHierOK` and `DHierFull` -/
 example : ∃ dls, dinit mgPrm (givenPolicy [(mgP0, mgR0)] [mgP, mgQ]) (distJacobi (2 / 3 : Rat)) (fun _ => true)
       (split mgA0 mgP mgP) mgP = .ok dls ∧ dls.length = 2 ∧
-    DHierOK (distJacobi (2 / 3 : Rat)) mgDirect' dls ∧ DHierFull dls := by
+    DHierOK (distJacobi (2 / 3 : Rat)) mgDirectS dls ∧ DHierFull dls := by
   have h2 : (match dinit mgPrm (givenPolicy [(mgP0, mgR0)] [mgP, mgQ]) (distJacobi (2 / 3 : Rat)) (fun _ => true)
       (split mgA0 mgP mgP) mgP with
     | .ok l => decide (l.length = 2)
@@ -437,7 +437,7 @@ example : ∃ dls, dinit mgPrm (givenPolicy [(mgP0, mgR0)] [mgP, mgQ]) (distJaco
   | ok dls =>
     rw [hd] at h2
     refine ⟨dls, rfl, by simpa using h2, ?_⟩
-    refine dinit_given_ok mgPrm [(mgP0, mgR0)] [mgP, mgQ] _ (fun _ => true) mgDirect' ?_ ?_ mgDirect'_size mgA0
+    refine dinit_given_ok mgPrm [(mgP0, mgR0)] [mgP, mgQ] _ (fun _ => true) mgDirectS ?_ ?_ mgDirectS_size mgA0
       ⟨by decide, rfl, by decide, by decide⟩ dls hd
     · intro l P R h
       match l, h with
